@@ -57,6 +57,20 @@ def _impl(tier, seed, search):
         # --- constructors follow the documented orders ------------------------------------------
         L.close(f'rpy2r-order-{o}', b.rpy2r(a, order=o), fwd_rpy(a, o), 1e-12, 1.0, dict(angles=a, order=o))
         L.close('rpy2r-deg', b.rpy2r(np.degrees(a), order=o, unit='deg'), b.rpy2r(a, order=o), 1e-12, 1.0, dict(angles=a, order=o))
+        # … several triples at once (N x 3), both units, in each class: value k is the documented product for triple k
+        if o in ('zyx', 'xyz', 'yxz'):
+            a2_ = np.array([a, a[::-1] * 0.5]); 
+            for un_ in ('rad', 'deg'):
+                au_ = a2_ if un_ == 'rad' else np.degrees(a2_)
+                for cn_, f_ in (('SE3.RPY', lambda: [np.asarray(x_, float)[:3, :3] for x_ in SE3.RPY(au_, order=o, unit=un_).data]), ('SO3.RPY', lambda: [np.asarray(x_, float) for x_ in SO3.RPY(au_, order=o, unit=un_).data]),
+                                ('SE3.RPY(list)', lambda: [np.asarray(x_, float)[:3, :3] for x_ in SE3.RPY([list(r_) for r_ in au_], order=o, unit=un_).data]), ('SE3.Eul', lambda: [np.asarray(x_, float)[:3, :3] for x_ in SE3.Eul(au_, unit=un_).data]),
+                                ('SO3.Eul', lambda: [np.asarray(x_, float) for x_ in SO3.Eul(au_, unit=un_).data])):
+                    ok, r_ = L.noraise(f'{cn_}(Nx3,{un_})', f_, dict(angles=a2_, order=o, unit=un_), f'{cn_}(N x 3, unit={un_})')
+                    if ok and len(r_) == 2:
+                        for k_ in range(2):
+                            want_ = fwd_rpy(a2_[k_], o) if 'RPY' in cn_ else RZ(a2_[k_][0]) @ RY(a2_[k_][1]) @ RZ(a2_[k_][2])
+                            L.close(f'{cn_}(Nx3,{un_})', r_[k_], want_, 1e-9, 1.0, dict(angles=a2_, order=o, unit=un_, k=k_), what=f'value k of {cn_}(N x 3 array, unit={un_}) is not the documented product for row k', sig=f'class-Nx3:{cn_.split("(")[0]}')
+                    elif ok: L.check(f'{cn_}(Nx3):len', False, dict(angles=a2_), f'{cn_}(2 x 3) gives {len(r_)} values', sig=f'class-Nx3:{cn_.split("(")[0]}')
         # … in every class that offers the constructor, for every order and alias
         for cn_, f_ in (('SO3.RPY', lambda: SO3.RPY(a, order=o).A), ('SE3.RPY', lambda: SE3.RPY(a, order=o).A[:3, :3]), ('UnitQuaternion.RPY', lambda: UnitQuaternion.RPY(a, order=o).R), ('rpy2tr', lambda: b.rpy2tr(a, order=o)[:3, :3]),
                         ('UnitQuaternion.RPY(deg)', lambda: UnitQuaternion.RPY(np.degrees(a), order=o, unit='deg').R)):
@@ -158,6 +172,17 @@ def _impl(tier, seed, search):
         if ok:
             L.close('xyt-roundtrip', b.xyt2tr(x), T2, TOL, max(1.0, float(np.max(np.abs(xyt[:2])))), dict(xyt=xyt))
             L.check('xyt-range', abs(x[2]) <= PI + 1e-12, dict(xyt=xyt), 'planar angle out of range')
+        # the class accessor on one and on several values (every quadrant), both units
+        if i % 3 == 0:
+            xs_ = [xyt, np.r_[xyt[1], -xyt[0], -xyt[2]], np.r_[1.0, 2.0, float(g.choice([2.0, -2.5, 3.0, -0.4]))]]
+            for un_ in ('rad',):
+                ok, r = L.noraise(f'SE2.xyt(multi,{un_})', lambda: (np.asarray(SE2([b.xyt2tr(x_) for x_ in xs_]).xyt(unit=un_) if un_ == 'deg' else SE2([b.xyt2tr(x_) for x_ in xs_]).xyt(), float), np.asarray(SE2(b.xyt2tr(xs_[0])).xyt(), float)), dict(xyt=xs_), 'SE2.xyt()')
+                if ok and r[0].shape in ((3, 3),):
+                    for k_ in range(3):
+                        got_ = r[0][k_] if un_ == 'rad' else np.r_[r[0][k_][:2], math.radians(r[0][k_][2])]
+                        L.close(f'SE2.xyt(multi,{un_})', b.xyt2tr(got_), b.xyt2tr(xs_[k_]), TOL, max(1.0, float(np.max(np.abs(xs_[k_][:2])))), dict(xyt=xs_, k=k_, unit=un_), what='row k of SE2.xyt() on several values does not rebuild value k', sig='SE2.xyt:multi')
+                elif ok: L.check('SE2.xyt(multi):shape', False, dict(xyt=xs_), f'SE2.xyt() of 3 values has shape {r[0].shape}', sig='SE2.xyt:multi')
+                if ok and un_ == 'rad': L.close('SE2.xyt(single)', b.xyt2tr(r[1].flatten()), b.xyt2tr(xs_[0]), TOL, max(1.0, float(np.max(np.abs(xs_[0][:2])))), dict(xyt=xs_[0]), sig='SE2.xyt:multi')
         ok, xd = L.noraise('tr2xyt(deg)', lambda: b.tr2xyt(T2, unit='deg'), dict(T=T2), "tr2xyt(unit='deg')")
         if ok:
             L.close('xyt-roundtrip(deg)', b.xyt2tr(xd, unit='deg'), T2, TOL, max(1.0, float(np.max(np.abs(xyt[:2])))), dict(xyt=xyt), what="xyt2tr(tr2xyt(T, 'deg'), 'deg') does not reproduce T")
